@@ -650,3 +650,16 @@ def _outer_elems(t):
     for x in t:
         if isinstance(x, tuple):
             yield from _outer_elems(x)
+
+
+def apply_partials(t):
+    """(functools.partial(f, *a, **k))(*b, **l)  ->  f(*a, *b, **k, **l)"""
+    def f(x):
+        if x[0] == "callv" and isinstance(x[1], tuple) and x[1] and \
+                x[1][0] == "call" and x[1][1] == "functools.partial" and \
+                x[1][2] and x[1][2][0][0] in ("name", "free"):
+            fn = x[1][2][0][1]
+            return ("call", fn, tuple(x[1][2][1:]) + tuple(x[2]),
+                    tuple(x[1][3]) + tuple(x[3]))
+        return x
+    return map_term(t, f)
